@@ -84,6 +84,8 @@ def plan(tier, seed):
               crop=bool(rng.random() < 0.6),
               dtype=pick(rng, ["complex128", "complex128", "float64", "float32", "complex64"]),
               prior=int(rng.integers(0, 1 << 30)), adv=int(rng.integers(0, 1000)))
+        if i % 10 == 6:
+            P.cases[-1]["pyopt"] = True      # python -O: "or else raises an error" still holds
         if i % 7 == 3:
             # the unseeded path (seed=None): no reference mask exists, but the mask is still
             # binary / calibrated / cropped / within tol and NumPy's global state untouched
